@@ -295,7 +295,7 @@ PROPS = {
         "level": "exploration",
         "jobs": c12_jobs,
         "miri_full": miri_full,
-        "rule": "random programs on UnrestrictedAtomic with self-checking values of 1,2,3,7,8,9,63,64,65,200 bytes and alignment 1/8/64: a writer doing copy-style and loan-style stores and handing the producer token back, an optional contender for the producer token, 1-2 readers; every program under hook off / every depth-1 stall plan / sampled depth-2 / random delays (debug, release, TSan) and Miri (full mode single-store regime, SC mode general). Port level (w_ports c12p, local_threadsafe and ipc_threadsafe blackboard services, keys with 8-, 40- and 200-byte self-checking values): a writer thread (one EntryHandleMut per key; copy updates, loan-style updates, discarded loans, refused second write handle), a contender creating writer ports, 1-2 reader threads with their own ports; rules: no torn value, versions monotone per reader and key, no value from a discarded loan, no read older than an update completed before it began, second writer port never created inside the first one's holding interval, second write handle refused with HandleAlreadyExists, final values = newest, writer slot and write handles free again at quiescence. Non-trivial = a load overlapped a store in time; distinct = distinct (program, interleaving signature, observed versions).",
+        "rule": "random programs on UnrestrictedAtomic with self-checking values of 1,2,3,7,8,9,63,64,65,200 bytes and alignment 1/8/64: a writer doing copy-style and loan-style stores and handing the producer token back, an optional contender for the producer token, 1-2 readers; every program under hook off / every depth-1 stall plan / sampled depth-2 / random delays (debug, release, TSan) and Miri (full mode single-store regime, SC mode general); hammer stage (debug, release): per shard four long real-thread runs on values of 2, 5, 8 and 24 bytes carrying their full version, one writer mixing copy stores and byte-by-byte loan fills with a pause in the middle, two readers in a tight loop (about 10^7 loads per run): no torn load, no load older than the previous one. Port level (w_ports c12p, local_threadsafe and ipc_threadsafe blackboard services, keys with 8-, 40- and 200-byte self-checking values): a writer thread (one EntryHandleMut per key; copy updates, loan-style updates, discarded loans, refused second write handle), a contender creating writer ports, 1-2 reader threads with their own ports; rules: no torn value, versions monotone per reader and key, no value from a discarded loan, no read older than an update completed before it began, second writer port never created inside the first one's holding interval, second write handle refused with HandleAlreadyExists, final values = newest, writer slot and write handles free again at quiescence. Non-trivial = a load overlapped a store in time; distinct = distinct (program, interleaving signature, observed versions).",
         "assumptions": COMMON_ASSUMPTIONS,
         "floor": (1000, 100),
     },
